@@ -13,6 +13,7 @@ S_COMMON = [
 from .continuum import F as CT
 from .alignment import F as AL
 from .sampler import F as SP
+from .cst import F as CS
 
 CONT_OBSERVERS = [CT + "Continuum." + m for m in ("annotators", "__bool__", "num_annotators", "num_units",
                                                   "avg_num_annotations_per_annotator", "categories")]
@@ -211,6 +212,23 @@ PROPS = {
                      "unlabelled units are written as the empty string and read back as the label '' (the statement covers labelled units)"],
         trusted=S_COMMON + ["model: open / csv.reader / csv.writer / float(str(x)) == x (pyvc/models/csvio.py); its precondition newline='' is an obligation",
                             "model: sortedcontainers; Continuum.add / __iter__ contracts (proved in C13)"],
+    ),
+    "C19": dict(
+        functions=[CS + "CorpusShufflingTool.corpus_from_reference#names", CS + "CorpusShufflingTool.corpus_from_reference#count",
+                   CS + "CorpusShufflingTool.false_neg_shuffle", CT + "Continuum.__getitem__#annotator"]
+                  + [CT + "Continuum." + m for m in ("__init__", "add", "remove", "iter_annotator", "annotators", "bounds")] + [CT + "Unit.__lt__"],
+        oracles=[CS + "CorpusShufflingTool.corpus_shuffle"],
+        bounded=[dict(oracle=CS + "CorpusShufflingTool.corpus_shuffle",
+                      what="shift / false-positive / category / split shuffles, corpus_shuffle and __init__ are not under contract yet: seeded runs "
+                           "on random single-annotator references, magnitudes 0 / 0.2 / 0.5 / 1, names or counts, every flag alone and random "
+                           "combinations, include_ref: annotator set, non-emptiness, positive durations, categories, magnitude-0 identity and "
+                           "the confinement clause of the single active perturbation")],
+        design_ref="DESIGN.md section 4 C19 (K1-K4)",
+        not_decided=["genericity hypothesis G: a freshly drawn continuous coordinate does not coincide exactly with an existing unit's",
+                     "splits_shuffle: when the cut falls within 1e-6 of the end the first add raises and the fallback re-inserts the unsplit unit "
+                     "(no unit added for that announced split): a draw of measure ~1e-6/length, read in the code, not reproduced by the bounded runs",
+                     "the amount of perturbation per magnitude (statistical)"],
+        trusted=S_COMMON + ["model: random generators (support only)", "model: sortedcontainers / deepcopy / f-string with one integer hole"],
     ),
     "C20": dict(
         functions=[CT + "GammaResults.gamma", CT + "GammaResults.n_samples", CT + "GammaResults.expected_disorder", CT + "GammaResults.observed_disorder",
